@@ -215,7 +215,7 @@ static void fft_case(int layout, int impl, int inverse, uint64_t m, int fam, uns
   if (inverse) oracle_ifft(m, lre, lim, ore, oim);
   else oracle_fft(m, lre, lim, ore, oim);
   // oracle validation + documented order, from the definition (float128 Horner), forward only
-  if (!inverse && m <= 4096) {
+  if (!inverse && m <= 4096 && !G.valgrind) {  // (valgrind emulates x87 long double with 64-bit precision)
     long double en = 0;
     for (uint64_t i = 0; i < m; i++) en += ore[i] * ore[i] + oim[i] * oim[i];
     en = sqrtl(en);
@@ -272,7 +272,7 @@ static void fft_case(int layout, int impl, int inverse, uint64_t m, int fam, uns
     nrm = sqrtl(nrm);
     long double bound = 8.0L * (long double)(ilog2(m) + 1) * 0x1p-53L * nrm;
     long double slack = nrm * 0x1p-60L * (long double)(ilog2(m) + 2);  // the oracle's own rounding
-    if (!(err <= bound + slack)) viol("oracle", "%s %s %s: m=%" PRIu64 " ||err||_2=%.4Lg > bound %.4Lg (||exact||_2=%.4Lg, fam=%s)", layout == L_REIM ? "reim" : "cplx", inverse ? "ifft" : "fft", impl_name[impl], m, err, bound, nrm, xfam_name[fam]);
+    if (!G.valgrind && !(err <= bound + slack)) viol("oracle", "%s %s %s: m=%" PRIu64 " ||err||_2=%.4Lg > bound %.4Lg (||exact||_2=%.4Lg, fam=%s)", layout == L_REIM ? "reim" : "cplx", inverse ? "ifft" : "fft", impl_name[impl], m, err, bound, nrm, xfam_name[fam]);
     if (nrm > 0) gauge_max("worst_err_over_bound", (double)(err / (bound > 0 ? bound : 1)));
     sample("||err||/bound=%.3Lg", nrm > 0 && bound > 0 ? err / bound : 0.0L);
     long wh;
